@@ -75,7 +75,7 @@ pub fn judge_rebackup(t: &Tree, opts: &BOpts, tag: &str, scratch: &Scratch) -> V
 /// (b) In any history each block path is written at most once while it remains.
 pub fn hist_oracle(tr: &Transition) -> Vec<Violation> {
     let mut v = Vec::new();
-    if !matches!(tr.ev.op, Op::Backup(_) | Op::Crashed(_)) {
+    if !matches!(tr.ev.op, Op::Backup(_) | Op::Crashed(..)) {
         return v;
     }
     let mut seen = std::collections::BTreeSet::new();
